@@ -720,7 +720,7 @@ class Environments(collections.abc.Sequence, Sequence[Environment]):
         else:
             seeds = flat(kwargs.get('seed',kwargs.get('seeds',args)))
 
-        if seeds != 0 and not seeds: seeds = [1]
+        if not args and not kwargs: seeds = [1]
         if isinstance(seeds,int): seeds = [seeds]
 
         shuffled = self.filter([Shuffle(seed) for seed in seeds])
